@@ -555,7 +555,35 @@ func checkC04(c *Ctx, r *Report) {
 	r.floor("R4.2", 2)
 	r.floor("R4.3", 14)
 	r.floor("R4.4", 3)
+	r.floor("R4.5", 26)
 	runC04On(c, r, "packet", "Registers", "NewRegisters", false)
+	// R4.5: accessors must not write the payload, otherwise a later access no longer returns
+	// the wire bytes (the derived-pointer analysis of C13, rooted at the Registers methods)
+	{
+		var roots []*ssa.Function
+		for _, m := range methodsOf(c, "packet", "Registers") {
+			if _, isPtr := m.Signature.Recv().Type().Underlying().(*types.Pointer); !isPtr {
+				roots = append(roots, m)
+			}
+		}
+		t := runC13(c, roots, payloadFields(c, "packet"))
+		r.instance("R4.5", len(roots))
+		seen := map[string]bool{}
+		for _, f := range t.findings {
+			if f.rule != "R13.1" {
+				continue
+			}
+			k := f.sig + fnID(f.fn)
+			if seen[k] {
+				continue
+			}
+			seen[k] = true
+			r.fail("R4.5", fnID(f.fn), f.what+" (a later accessor would not see the wire bytes)", c.pos(f.pos), "", f.sig)
+		}
+		if len(seen) == 0 {
+			r.ok("R4.5", "packet.Registers", fmt.Sprintf("none of the %d accessors (nor anything they call) writes through payload-derived memory", len(roots)), "-", true)
+		}
+	}
 	r.assumption("Registers values are only created by NewRegisters (its fields are unexported; checked: no other function of the package stores to startAddress/endAddress/data)")
 	r.assumption("slice lengths are below 2^31; int is 64 bits wide")
 	r.assumption("float decoding (math.Float32frombits) is exact; numerical identity of floats is not decided")
